@@ -511,6 +511,8 @@ pub struct RepairDriver {
     /// the latest message on the wire per concrete request
     last_wire: HashMap<(String, String, usize, usize), RepairRequest>,
     last_label: String,
+    /// the actions of the current walk (kept for the reproduction of a divergence)
+    walk: Vec<Value>,
     /// every divergence fingerprint seen (the engine's report is capped)
     pub all_fps: Mutex<BTreeMap<String, (u64, Value)>>,
 }
@@ -520,7 +522,7 @@ impl RepairDriver {
         let fx = Fx::new(ns, ng, seed);
         let rt = new_rt();
         let good = Responder::spawn(&fx, &rt, "full_d", None);
-        Self { fx, rt, good, rq: None, last_wire: HashMap::new(), last_label: String::new(), all_fps: Mutex::new(BTreeMap::new()) }
+        Self { fx, rt, good, rq: None, last_wire: HashMap::new(), last_label: String::new(), walk: Vec::new(), all_fps: Mutex::new(BTreeMap::new()) }
     }
 
     fn note(&self, fields: &[String], prefix: &str, detail: Value) {
@@ -529,7 +531,15 @@ impl RepairDriver {
         }
         let fp = format!("{}|{}", self.last_label, fields.iter().map(|f| format!("{prefix}{f}")).collect::<Vec<_>>().join(","));
         let mut m = self.all_fps.lock().unwrap();
-        let e = m.entry(fp).or_insert((0, detail));
+        let e = m.entry(fp).or_insert_with(|| {
+            let mut d = detail;
+            d["walk"] = Value::Array(self.walk.clone());
+            d["how_to_rerun"] = json!(format!(
+                "write the walk to a file and run: verif-harness replay-repair --ns {} --ng {} --script <file>",
+                self.fx.ns, self.fx.ng
+            ));
+            (0, d)
+        });
         e.0 += 1;
     }
 
@@ -592,10 +602,12 @@ impl Driver for RepairDriver {
         let repair = Repair::new(store.clone(), pool.clone(), net.clone(), vepoch);
         self.rq = Some(Requester { repair, net, store, events: erx, pool_events: prx, repair_reqs: rrx, _pool: pool });
         self.last_wire.clear();
+        self.walk.clear();
     }
 
     fn step(&mut self, act: &Value) -> Value {
         self.last_label = self.act_label(act);
+        self.walk.push(act.clone());
         let mut ans = json!({"v": "-", "ok": false});
         let mut panic = String::new();
         match act["op"].as_str().unwrap_or("") {
